@@ -1,7 +1,7 @@
 #!/bin/bash
-# try_seed.sh <PROP> <mN> [props...]: copy the sub-agent's output to /tmp/wt/out3 and run the checks on the patched /repo
+# try_seed.sh <PROP> <mN> [props...]: copy the sub-agent's output to /tmp/wt/out4 and run the checks on the patched /repo
 P=$1; M=$2; shift 2
-mkdir -p /tmp/wt/out3/$P
-rm -rf /tmp/wt/out3/$P/$M; cp -r /tmp/wt/$P/_out/$M /tmp/wt/out3/$P/$M
+mkdir -p /tmp/wt/out4/$P
+rm -rf /tmp/wt/out4/$P/$M; cp -r /tmp/wt/$P/_out/$M /tmp/wt/out4/$P/$M
 IDS=${@:-$P}
-/verif/tools/try_patch.sh /tmp/wt/out3/$P/$M/patch.diff $IDS 2>&1 | grep -E "^VIOLATION|^ipfixlint|error|Error" | cut -c1-330
+/verif/tools/try_patch.sh /tmp/wt/out4/$P/$M/patch.diff $IDS 2>&1 | grep -E "^VIOLATION|^ipfixlint|error|Error" | cut -c1-330
